@@ -77,16 +77,79 @@ def entry_read(eng, ctx, shard, kid, label):
     return ctx.mem_read(shard, (("e", kid),), "ptr", False, "NA", label)
 
 
+def placed(eng):
+    """are placement hashes modelled? (eng.reg_keys / reg_hash / reg_maphash set by the scenario)"""
+    return getattr(eng, "reg_keys", None) is not None
+
+
+def ph_read(eng, ctx, shard, kid):
+    return ctx.mem_read(shard, (("ph", kid),), 64, False, "NA", "map_probe")
+
+
+def place(eng, ctx, shard, kid, h):
+    """an entry is (re)placed in the table under hash h"""
+    if placed(eng):
+        ctx.mem_write(shard, (("ph", kid),), 64, h, False, "NA", "map_place")
+
+
+def maybe_grow(eng, ctx, shard, then):
+    """An insertion may make the table grow; hashbrown then re-inserts every stored key under the hash its *own* hasher computes for
+    it (`reg_maphash`). The solver chooses whether this insertion grows the table."""
+    if not placed(eng):
+        return then(ctx)
+    g = eng.fresh("table_grows_at_this_insert", "bool")
+
+    def grow(c):
+        for k in eng.reg_keys:
+            c.mem_write(shard, (("ph", k),), 64, eng.reg_maphash(k), False, "NA", "map_rehash")
+        c.observe("table_grew", shard=shard)
+        return then(c)
+    return Fork([(g, grow), (z3.Not(g), then)])
+
+
 def m_from_key(eng, ctx, f, path, args, dty):
     b = args[0]
     shard, gk = b.data
     kid = key_of(eng, ctx, args[2])
     p = entry_read(eng, ctx, shard, kid, "map_lookup")
+    if placed(eng):
+        # hashbrown probes by hash and then compares keys: the entry is found iff it is stored and was placed under the hash given
+        ph = ph_read(eng, ctx, shard, kid)
+        h = args[1]
+        p = z3.If(ph == h, p, z3.IntVal(0))
     if b.kind == "rawmut":
         e = Native("entrymut", (shard, kid, p, gk))
         return Enum(z3.If(p != 0, bv(0), bv(1)), {0: Agg({0: e}), 1: Agg({0: e})}, "RawEntryMut")
     some = Enum(1, {1: Agg({0: Agg({0: Opaque("keyref"), 1: Ptr(("obj", p))})})}, "Option")
     return Fork([(p != 0, some), (p == 0, Enum(0, {}, "Option"))])
+
+
+def m_from_hash(eng, ctx, f, path, args, dty):
+    """RawEntryBuilder(Mut)::from_hash(hash, is_match): the first stored entry placed under `hash` whose key satisfies the closure"""
+    if not placed(eng):
+        raise Unsupported("from_hash needs the placement-hash model of the shard maps")
+    b = args[0]
+    shard, gk = b.data
+    h, clo = args[1], args[2]
+
+    def script(c):
+        for k in eng.reg_keys:
+            p = yield ("effect", lambda c_, k=k: entry_read(eng, c_, shard, k, "map_lookup"))
+            ph = yield ("effect", lambda c_, k=k: ph_read(eng, c_, shard, k))
+            cand = yield ("branch", z3.And(p != 0, ph == h))
+            if not cand:
+                continue
+            cell = yield ("effect", lambda c_, k=k: __import__("mirsmt.models_coll", fromlist=["x"]).new_cell(c_, Native("key", k), "probekey"))
+            r = yield ("callv", clo, [Ptr(("static", cell))])
+            hit = yield ("branch", eng.as_bool(r))
+            if hit:
+                if b.kind == "rawmut":
+                    return Enum(0, {0: Agg({0: Native("entrymut", (shard, k, p, gk))})}, "RawEntryMut")
+                return Enum(1, {1: Agg({0: Agg({0: Opaque("keyref"), 1: Ptr(("obj", p))})})}, "Option")
+        if b.kind == "rawmut":
+            raise Unsupported("from_hash (mut) without a match: the vacant entry has no key")
+        return Enum(0, {}, "Option")
+    return Script(script)
 
 
 def _entry(a):
@@ -119,8 +182,13 @@ def m_or_insert_with(eng, ctx, f, path, args, dty):
         if not (isinstance(newp, Ptr) and newp.root[0] == "obj"):
             raise Unsupported(f"storage constructor returned {newp}")
         nid = newp.root[1]
-        c.mem_write(shard, (("e", kid),), "ptr", z3.IntVal(nid) if isinstance(nid, int) else nid, False, "NA", "map_insert")
-        return Agg({0: Opaque("keyref"), 1: newp})
+
+        def ins(c2):
+            c2.mem_write(shard, (("e", kid),), "ptr", z3.IntVal(nid) if isinstance(nid, int) else nid, False, "NA", "map_insert")
+            if placed(eng):
+                place(eng, c2, shard, kid, eng.reg_maphash(kid))       # or_insert_with hashes the key with the map's own hasher
+            return Agg({0: Opaque("keyref"), 1: newp})
+        return maybe_grow(eng, c, shard, ins)
     return Fork([(p != 0, Agg({0: Opaque("keyref"), 1: Ptr(("obj", p))})), (p == 0, make)])
 
 
@@ -132,10 +200,16 @@ def m_insert_entry(eng, ctx, f, path, args, dty):
     nid = newp.root[1]
     if gk != "wguard":
         ctx.observe("insert_without_write_lock")
-    ctx.mem_write(shard, (("e", kid),), "ptr", z3.IntVal(nid) if isinstance(nid, int) else nid, False, "NA", "map_insert")
-    if path.split("::")[-1].startswith("insert_hashed") or "RawVacantEntryMut" in path:
-        return Agg({0: Opaque("keyref"), 1: newp})
-    return Native("entrymut", (shard, kid, z3.IntVal(nid) if isinstance(nid, int) else nid, gk))
+    hashed = path.split("::")[-1].startswith("insert_hashed")
+
+    def ins(c):
+        c.mem_write(shard, (("e", kid),), "ptr", z3.IntVal(nid) if isinstance(nid, int) else nid, False, "NA", "map_insert")
+        if placed(eng):
+            place(eng, c, shard, kid, args[1] if hashed else eng.reg_maphash(kid))      # insert_hashed_nocheck: under the hash given
+        if hashed or "RawVacantEntryMut" in path:
+            return Agg({0: Opaque("keyref"), 1: newp})
+        return Native("entrymut", (shard, kid, z3.IntVal(nid) if isinstance(nid, int) else nid, gk))
+    return maybe_grow(eng, ctx, shard, ins)
 
 
 def m_occ_get(eng, ctx, f, path, args, dty):
@@ -153,6 +227,10 @@ def m_remove(eng, ctx, f, path, args, dty):
     shard, gk = m.data
     kid = key_of(eng, ctx, args[1])
     p = entry_read(eng, ctx, shard, kid, "map_lookup")
+    if placed(eng):
+        # HashMap::remove(&key) hashes the key with the map's own hasher
+        ph = ph_read(eng, ctx, shard, kid)
+        p = z3.If(ph == eng.reg_maphash(kid), p, z3.IntVal(0))
 
     def rem(c):
         if gk != "wguard":
@@ -221,6 +299,7 @@ REG_MODELS = {
     r"RwLock(Read|Write)Guard as Deref(Mut)?>::deref(_mut)?$": m_guard_deref,
     r"hashbrown::raw_entry::raw_entry(_mut)?$": m_raw_entry,
     r"RawEntryBuilder(Mut)?::from_key_hashed_nocheck$": m_from_key,
+    r"RawEntryBuilder(Mut)?::from_hash$": m_from_hash,
     r"RawEntryMut::or_insert_with$": m_or_insert_with,
     r"RawEntryMut::insert$|RawVacantEntryMut::insert(_hashed_nocheck)?$": m_insert_entry,
     r"RawOccupiedEntryMut::(get|get_mut|into_mut|into_key_value|get_key_value)$": m_occ_get,
